@@ -86,8 +86,8 @@ type c19Case struct {
 	Len     int    `json:"len"`
 	Pattern string `json:"pattern"`
 	AsStr   bool   `json:"as_string"`
-	Part    string `json:"part"`            // roundtrip | wrongkeys | ciphertext-mods | tokens
-	Only    int    `json:"only,omitempty"`  // replay: a single modification index (+1), 0 = all
+	Part    string `json:"part"`           // roundtrip | wrongkeys | ciphertext-mods | tokens
+	Only    int    `json:"only,omitempty"` // replay: a single modification index (+1), 0 = all
 }
 
 var c19Lengths = []int{0, 1, 15, 16, 17, 31, 32, 33, 64, 255, 1024, 4096, 16384, 16385, 65537}
@@ -304,8 +304,10 @@ func C19() *engine.Check {
 	mk := func(name, part, rule string, lens func(tier string) []int) *engine.Sub {
 		return &engine.Sub{
 			Name: name, Rule: rule, Serial: true,
-			Bound: func(t string) string { return fmt.Sprintf("plaintext lengths %v x 4 patterns x {string, bytes}", lens(t)) },
-			Gen: func(tier string, emit func(any) bool) { gen(part, lens(tier))(tier, emit) },
+			Bound: func(t string) string {
+				return fmt.Sprintf("plaintext lengths %v x 4 patterns x {string, bytes}", lens(t))
+			},
+			Gen:     func(tier string, emit func(any) bool) { gen(part, lens(tier))(tier, emit) },
 			NewCase: func() any { return &c19Case{} },
 			Run:     run,
 		}
@@ -362,7 +364,9 @@ func c19SeqSub() *engine.Sub {
 		Name:   "encryption-sequences",
 		Serial: true,
 		Rule:   "histories: N encryptions of the same value under the same key, with the random source failing at its k-th read for every k in 0..N+2 (0 = never): a call either returns an error or stores a value; all stored values and all their 24-byte nonces are pairwise distinct (also those produced after the failure), and each decrypts to the plaintext. Then every value is read with GetEncryptedBytes, the results are kept, and after all reads each kept result still equals the plaintext (a returned slice must not alias a reused buffer); non-trivial = all",
-		Bound:  func(t string) string { return fmt.Sprintf("N=%d encryptions x every RNG failure position x {string, bytes} x plaintext lengths {16, 200}", tierN(t, 40, 80)) },
+		Bound: func(t string) string {
+			return fmt.Sprintf("N=%d encryptions x every RNG failure position x {string, bytes} x plaintext lengths {16, 200}", tierN(t, 40, 80))
+		},
 		Gen: func(tier string, emit func(any) bool) {
 			n := tierN(tier, 40, 80)
 			for _, l := range []int{16, 200} {
